@@ -38,6 +38,7 @@ AllLeaves == CASE G = "G12" -> (IF NV = 1 THEN LeavesG1 ELSE LeavesG2(NV))
                [] G = "G6"  -> LeavesG6
                [] G = "G7i" -> LeavesG7("int")
                [] G = "G7o" -> LeavesG7("obj")
+               [] G = "G7p" -> LeavesG7("opt")
                [] G = "G7c" -> LeavesG7c
 Leaves == Some(AllLeaves, LeafLimit)
 
@@ -65,8 +66,8 @@ Selections ==
     [] G \in {"G3", "G3y"} -> << [desc |-> "entity", sel |-> <<V(1)>>, flats |-> <<>>, bound |-> <<2>>] >>
     [] G = "G4" -> [j \in 1..Len(Heads) |-> [desc |-> "entity", sel |-> <<>>, flats |-> <<>>, bound |-> <<>>, head |-> Heads[j]]]
     [] G = "G6" -> << Sel("set_of", <<V(1), V(2)>>), Sel("entity", <<V(1)>>), Sel("set_of", <<V(2), V(1)>>) >>
-    [] G \in {"G7i", "G7o"} ->
-       LET srcs == FlatSources(IF G = "G7i" THEN "int" ELSE "obj")
+    [] G \in {"G7i", "G7o", "G7p"} ->
+       LET srcs == FlatSources(IF G = "G7i" THEN "int" ELSE IF G = "G7o" THEN "obj" ELSE "opt")
        IN Cat([j \in 1..Len(srcs) |-> << SelF("entity", <<Flat(1)>>, srcs[j]), SelF("set_of", <<V(1), Flat(1)>>, srcs[j]),
                                          SelF("set_of", <<Flat(1), V(1)>>, srcs[j]), SelF("set_of", <<Flat(1)>>, srcs[j]) >>])
           \* two flattened expressions of one parent, without the parent: both stay correlated through it
@@ -114,7 +115,7 @@ Finish(s) == /\ done = <<>> /\ Len(stack) = 1
              /\ stack' = <<>>
 
 \* a query without any condition: entity(x) / set_of([...]) alone
-FinishBare(s) == /\ G \in {"G12", "G1s", "G7i", "G7o"} /\ ~NeedNot
+FinishBare(s) == /\ G \in {"G12", "G1s", "G7i", "G7o", "G7p"} /\ ~NeedNot
                  /\ done = <<>> /\ stack = <<>>
                  /\ done' = <<[desc |-> Selections[s].desc, sel |-> Selections[s].sel, flats |-> Selections[s].flats,
                                bound |-> Selections[s].bound, cond |-> TrueC, boundflats |-> <<>>]>>
